@@ -54,3 +54,68 @@ def body(root, t, src, deps, prods):
     finally:
         with open(root / "exec.log", "a") as fh:
             fh.write(f"F {t}\n")
+
+
+def _nid(path):
+    """Node id of a file written by the harness: f<nid>.txt or pat<i>/g<j>.in."""
+    path = Path(path)
+    if path.suffix == ".in":
+        return 10000 + 100 * int(path.parent.name[3:]) + int(path.stem[1:])
+    return int(path.stem[1:])
+
+
+def pbody(root, t, src, deps, pattern_files, prods, pdir=None, clears=False):
+    """Body of a task with provisional nodes: static deps, then the received pattern files
+    (sorted by node id); writes static products and, for a producer, (first dep value mod 4)
+    files g<j>.in into its pattern directory."""
+    root = Path(root)
+    try:
+        faults = json.loads((root / "faults.json").read_text())
+    except Exception:  # noqa: BLE001
+        faults = {}
+    f = faults.get(str(t))
+    with open(root / "exec.log", "a") as fh:
+        fh.write(f"S {t}\n")
+    try:
+        if f == "raise_before":
+            raise RuntimeError("injected")
+        files = sorted(pattern_files, key=_nid)
+        dv = [int(Path(d).read_text()) for d in list(deps) + files]
+        targets = dict(prods)
+        if pdir is not None:
+            pdir = Path(pdir)
+            pdir.mkdir(parents=True, exist_ok=True)
+            if clears:
+                for old in pdir.glob("*.in"):
+                    old.unlink()
+            n = dv[0] % 4 if dv else 0
+            for j in range(n):
+                targets[10000 + 100 * t + j] = pdir / f"g{j}.in"
+        omit = f["omit"] if isinstance(f, dict) else []
+        for nid, path in targets.items():
+            if int(nid) in omit:
+                continue
+            Path(path).write_text(str(hbody(t, src, dv, int(nid))))
+        if f == "raise_after":
+            raise RuntimeError("injected")
+    finally:
+        with open(root / "exec.log", "a") as fh:
+            fh.write(f"F {t}\n")
+
+
+def gen_log(root, t, when):
+    with open(Path(root) / "exec.log", "a") as fh:
+        fh.write(f"{when} {t}\n")
+
+
+def gen_begin(root, t):
+    """Start of a generator body: logs, and fails before creating any task when a fault is injected."""
+    root = Path(root)
+    try:
+        faults = json.loads((root / "faults.json").read_text())
+    except Exception:  # noqa: BLE001
+        faults = {}
+    gen_log(root, t, "S")
+    if faults.get(str(t)) in ("raise_before", "raise_after"):
+        gen_log(root, t, "F")
+        raise RuntimeError("injected")
